@@ -286,6 +286,11 @@ pub struct Observed {
 }
 
 pub fn observe(a: &BinArchive) -> Result<Observed, String> {
+    observe_step(a, 4)
+}
+
+/// `step` = 4 looks at aligned cells only, 1 at every address
+pub fn observe_step(a: &BinArchive, step: usize) -> Result<Observed, String> {
     let size = a.size();
     let bytes = if size > 0 { a.read_bytes(0, size).map_err(|e| format!("read_bytes(0,{size}): {e}"))?.to_vec() } else { Vec::new() };
     let mut strings = BTreeMap::new();
@@ -298,7 +303,7 @@ pub fn observe(a: &BinArchive) -> Result<Observed, String> {
         if let Some(p) = a.read_pointer(addr).map_err(|e| format!("read_pointer({addr}): {e}"))? {
             pointers.insert(addr, p);
         }
-        addr += 4;
+        addr += step;
     }
     let mut labels: BTreeMap<usize, Vec<String>> = BTreeMap::new();
     for (ad, name) in a.all_labels() {
